@@ -111,12 +111,39 @@ class Check:
         os.makedirs(CACHE, exist_ok=True)
 
     # ---- builds --------------------------------------------------------------------------------
+    # which properties consume which TABLE generator (a generator that no longer understands its part of the source concerns
+    # only these checks; the translated-function clients report through source_tie instead)
+    GEN_CONSUMERS = {
+        "gen_truth": ("C06",), "c04_gen": ("C04", "C05"), "c05_gen": ("C05",), "c11_gen": ("C11",),
+        "c12_gen": ("C12", "C07"), "c19_gen": ("C19",), "c20_gen": ("C20",),
+    }
+
     def gen_from_source(self):
-        rc, out = sh([sys.executable, os.path.join(ROOT, "lib", "gen_from_source.py")], timeout=120)
+        rc, out = sh([sys.executable, os.path.join(ROOT, "lib", "gen_from_source.py")], timeout=900)
         if rc != 0:
             self.broken.append("gen_from_source: " + out.strip().splitlines()[-1] if out.strip() else "gen_from_source")
             return False
-        return True
+        try:
+            status = json.load(open(os.path.join(CACHE, "gen_status.json")))
+        except (OSError, ValueError):
+            status = {}
+        ok = True
+        self.truth_table_failed = None
+        for gen, msg in sorted(status.items()):
+            users = self.GEN_CONSUMERS.get(gen)
+            if users is None:
+                # a translated-function client that crashed / could not be imported: its tie is reported inactive
+                self.coverage.setdefault("generator_notes", {})[gen] = msg
+                continue
+            if self.prop not in users:
+                continue
+            if gen == "gen_truth":
+                # is_true is ALSO tied by translation (source_tie("cond")); decided there
+                self.truth_table_failed = msg
+                continue
+            ok = False
+            self.broken.append("regenerated table (%s): %s" % (gen, msg))
+        return ok
 
     def coq_build(self, targets, timeout=1500):
         """make the given .vo targets (full build).  Returns (ok, log)."""
@@ -235,6 +262,9 @@ class Check:
             info[which] = {"function": what, "active": False, "reason": why}
             print("NOTE: property=%s translation tie for %s is inactive on this tree (translator: %s); "
                   "the correspondence run is the only tie for it in this run" % (self.prop, what, why), flush=True)
+            if which == "cond" and getattr(self, "truth_table_failed", None):
+                self.broken.append("regenerated table (gen_truth): %s (and the translator does not understand is_true either)" % self.truth_table_failed)
+                self.truth_table_failed = None
             # the props file still builds against the stub (its theorems are stated under `understood = true`), and other
             # functions tied in the same file (per-function flags) are still checked
             if which in getattr(Check, "SRC_TIES_PARTIAL", ()):
@@ -252,6 +282,18 @@ class Check:
                 self.obligations.append("%s.%s" % (mod, t))
         info[which] = {"function": what, "active": True, "theorems": thms,
                        "meaning": "the model function equals the mechanical translation of the current source for all inputs"}
+        if which == "cond" and getattr(self, "truth_table_failed", None):
+            if ok and not any(("Src_cond" in b) for b in self.broken):
+                print("NOTE: property=%s the regex extractor of the truthiness TABLE does not understand is_true any more (%s); "
+                      "the function-level translation tie (Src_cond_is_true_rule) holds on this tree and stands in for it"
+                      % (self.prop, self.truth_table_failed), flush=True)
+                info["truth_table"] = {"active": False, "reason": self.truth_table_failed, "replaced_by": "Src_cond_is_true_rule"}
+                names = ["DSP.C06.C06_tables"]
+                self.obligations[:] = [o for o in self.obligations if o not in names]
+                self.discharged[:] = [o for o in self.discharged if o not in names]
+            else:
+                self.broken.append("regenerated table (gen_truth): %s" % self.truth_table_failed)
+            self.truth_table_failed = None
         return ok
 
     def coqchk(self, timeout=1500):
@@ -498,3 +540,489 @@ def _source_tie_with_parser_rest(self, which):
 
 
 Check.source_tie = _source_tie_with_parser_rest
+
+
+# --- appended (builder B16): translation tie "cli" for C20 — duckscript_cli/src/main.rs and linter.rs (lib/gen/cli_gen.py ->
+# coq/generated/GenCliFn.v, proofs coq/theories/CliGenTie.v, wrappers coq/props/SrcCli.v).  Same scheme as PARSER_REST_TIES:
+# the tie key's own flag is run_cli's; every other function has its OWN flag in GenCliFn.v, a function the translator does
+# not understand any more gets a stub, its theorem (stated under `flag = true`) holds vacuously, and source_tie("cli")
+# then reports exactly that function's tie as inactive (NOTE + evidence) and does not count its theorem as discharged.
+CLI_REST_TIES = [
+    ("gen_is_lower_case_understood", "duckscript_cli/src/linter.rs::is_lower_case", ["Src_cli_is_lower_case"]),
+    ("gen_lint_instruction_understood", "duckscript_cli/src/linter.rs::lint_instruction", ["Src_cli_lint_instruction"]),
+    ("gen_lint_instructions_understood", "duckscript_cli/src/linter.rs::lint_instructions", ["Src_cli_lint_instructions"]),
+    ("gen_lint_file_understood", "duckscript_cli/src/linter.rs::lint_file", ["Src_cli_lint_file"]),
+    ("gen_run_script_understood", "duckscript_cli/src/main.rs::run_script", ["Src_cli_run_script"]),
+    ("gen_run_repl_understood", "duckscript_cli/src/main.rs::run_repl", ["Src_cli_run_repl"]),
+    ("gen_main_understood", "duckscript_cli/src/main.rs::main", ["Src_cli_main"]),
+]
+Check.SRC_TIES.update({
+    "cli": ("GenCliFn.v", "gen_run_cli_understood", "props/SrcCli.vo", "DSP.SrcCli",
+            ["Src_cli_dispatch", "Src_cli_run_cli"], "duckscript_cli/src/main.rs::run_cli"),
+})
+Check.SRC_TIES_BASE = dict(getattr(Check, "SRC_TIES_BASE", {}))
+Check.SRC_TIES_BASE["cli"] = list(Check.SRC_TIES["cli"][4])
+Check.SRC_TIES_PARTIAL = tuple(getattr(Check, "SRC_TIES_PARTIAL", ())) + ("cli",)
+Check.SRC_TIES["cli"][4].extend(t for _f, _w, _ts in CLI_REST_TIES for t in _ts)
+_source_tie_before_cli_rest = Check.source_tie
+
+
+def _source_tie_with_cli_rest(self, which):
+    ok = _source_tie_before_cli_rest(self, which)
+    if which != "cli":
+        return ok
+    try:
+        text = open(os.path.join(ROOT, "coq", "generated", "GenCliFn.v")).read()
+    except OSError:
+        text = ""
+    info = self.coverage.setdefault("source_translation", {})
+    rest = {}
+    for flag, what, thms in CLI_REST_TIES:
+        fn = what.split("::")[-1]
+        if re.search(r"Definition %s : bool := true\." % flag, text) is not None:
+            rest[fn] = {"active": True, "theorems": thms}
+            continue
+        m = re.search(r"\(\* NOT UNDERSTOOD %s: (.*?) \*\)" % re.escape(fn), text, re.S)
+        why = m.group(1) if m else "generated file missing"
+        rest[fn] = {"active": False, "reason": why}
+        names = ["DSP.SrcCli.%s" % t for t in thms]
+        self.obligations[:] = [o for o in self.obligations if o not in names]
+        self.discharged[:] = [o for o in self.discharged if o not in names]
+        if isinstance(info.get("cli", {}).get("theorems"), list):
+            info["cli"]["theorems"] = [t for t in info["cli"]["theorems"] if t not in thms]
+        print("NOTE: property=%s translation tie for %s is inactive on this tree (translator: %s); "
+              "the correspondence run is the only tie for it in this run" % (self.prop, what, why), flush=True)
+    info["cli_rest"] = {"file": "coq/generated/GenCliFn.v", "functions": rest,
+                        "meaning": "each listed function of duckscript_cli: the hand model function equals the mechanical "
+                                   "translation of the current source for all inputs (one flag per function)"}
+    return ok
+
+
+Check.source_tie = _source_tie_with_cli_rest
+
+
+# --- appended (builder B13): translation ties "alias" (C19) and "scope_clear" (C11) — AliasCommand::run of
+# duckscript_sdk/src/types/command.rs and clear of types/scope.rs (lib/gen/alias_gen.py -> coq/generated/GenAliasFn.v, proofs
+# coq/theories/AliasGenTie.v, wrappers coq/props/SrcAlias.v).  Two functions, two flags in one generated file:
+#   "scope_clear"  flag gen_scope_clear_understood: AliasCmd.keep and Scope.m_cmd (CClearScope) = the translation of `clear`;
+#   "alias"        flag gen_alias_run_understood (the generator sets it only when `clear` is understood too, `run` calls it):
+#                  AliasCmd.alias_run = the translation of `run`, and the C19 wrapper theorems restated about the translation;
+#                  its list also carries Src_alias_clear, which has its OWN flag (same scheme as PARSER_REST_TIES): when `run`
+#                  is not understood but `clear` is, that theorem is still checked; when `clear` is not understood it is
+#                  reported inactive and not counted as discharged.
+Check.SRC_TIES.update({
+    "alias": ("GenAliasFn.v", "gen_alias_run_understood", "props/SrcAlias.vo", "DSP.SrcAlias",
+              ["Src_alias_run", "Src_alias_no_working_variable", "Src_alias_argument_array_released",
+               "Src_alias_caller_variables", "Src_alias_leak_check_never_fires"],
+              "duckscript_sdk/src/types/command.rs::AliasCommand::run"),
+    "scope_clear": ("GenAliasFn.v", "gen_scope_clear_understood", "props/SrcAlias.vo", "DSP.SrcAlias",
+                    ["Src_alias_clear", "Src_scope_clear_c11"], "duckscript_sdk/src/types/scope.rs::clear"),
+})
+ALIAS_REST_TIES = [("gen_scope_clear_understood", "duckscript_sdk/src/types/scope.rs::clear", ["Src_alias_clear"])]
+Check.SRC_TIES_BASE = dict(getattr(Check, "SRC_TIES_BASE", {}))
+Check.SRC_TIES_BASE["alias"] = list(Check.SRC_TIES["alias"][4])
+Check.SRC_TIES_PARTIAL = tuple(getattr(Check, "SRC_TIES_PARTIAL", ())) + ("alias",)
+Check.SRC_TIES["alias"][4].extend(t for _f, _w, _ts in ALIAS_REST_TIES for t in _ts)
+_source_tie_before_alias_rest = Check.source_tie
+
+
+def _source_tie_with_alias_rest(self, which):
+    ok = _source_tie_before_alias_rest(self, which)
+    if which != "alias":
+        return ok
+    try:
+        text = open(os.path.join(ROOT, "coq", "generated", "GenAliasFn.v")).read()
+    except OSError:
+        text = ""
+    info = self.coverage.setdefault("source_translation", {})
+    rest = {}
+    for flag, what, thms in ALIAS_REST_TIES:
+        fn = what.split("::")[-1]
+        if re.search(r"Definition %s : bool := true\." % flag, text) is not None:
+            rest[fn] = {"active": True, "theorems": thms}
+            continue
+        m = re.search(r"\(\* NOT UNDERSTOOD: %s: (.*?) \*\)" % re.escape(fn), text, re.S)
+        why = m.group(1) if m else "generated file missing"
+        rest[fn] = {"active": False, "reason": why}
+        names = ["DSP.SrcAlias.%s" % t for t in thms]
+        self.obligations[:] = [o for o in self.obligations if o not in names]
+        self.discharged[:] = [o for o in self.discharged if o not in names]
+        if isinstance(info.get("alias", {}).get("theorems"), list):
+            info["alias"]["theorems"] = [t for t in info["alias"]["theorems"] if t not in thms]
+        print("NOTE: property=%s translation tie for %s is inactive on this tree (translator: %s); "
+              "the correspondence run is the only tie for it in this run" % (self.prop, what, why), flush=True)
+    info["alias_rest"] = {"file": "coq/generated/GenAliasFn.v", "functions": rest,
+                          "meaning": "types/scope.rs::clear, called by AliasCommand::run: AliasCmd.keep equals the mechanical "
+                                     "translation of the current source for all inputs (own flag)"}
+    return ok
+
+
+Check.source_tie = _source_tie_with_alias_rest
+
+
+# --- appended (builder B11): translation tie "eval" for C09 / C10 / C19 — duckscript_sdk/src/utils/eval.rs (lib/gen/eval_gen.py ->
+# coq/generated/GenEvalFn.v, proofs coq/theories/EvalGenTie.v, wrappers coq/props/SrcEval.v).  Same scheme as
+# PARSER_REST_TIES: the tie key's own flag is the text assembly of fn parse (gen_eval_line_understood); fn parse as a whole and
+# fn eval_instructions have their OWN flags in GenEvalFn.v, what the translator does not understand any more gets a stub, its
+# theorems (stated under `flag = true`) hold vacuously, and source_tie("eval") then reports exactly that tie as inactive
+# (NOTE + evidence) and does not count its theorems as discharged.
+EVAL_REST_TIES = [
+    ("gen_eval_parse_understood", "parse", "duckscript_sdk/src/utils/eval.rs::parse (parse_text, instructions[0], error arm)",
+     ["Src_eval_parse_ix", "Src_eval_parse"]),
+    ("gen_eval_instructions_understood", "eval_instructions", "duckscript_sdk/src/utils/eval.rs::eval_instructions",
+     ["Src_eval_instructions_loop", "Src_eval_instructions", "Src_eval_instructions_step_no_panic"]),
+]
+Check.SRC_TIES.update({
+    "eval": ("GenEvalFn.v", "gen_eval_line_understood", "props/SrcEval.vo", "DSP.SrcEval",
+             ["Src_eval_line_body", "Src_eval_line"],
+             "duckscript_sdk/src/utils/eval.rs::parse (text assembly: quoting loop and the three replace calls)"),
+})
+Check.SRC_TIES_BASE = dict(getattr(Check, "SRC_TIES_BASE", {}))
+Check.SRC_TIES_BASE["eval"] = list(Check.SRC_TIES["eval"][4])
+Check.SRC_TIES_PARTIAL = tuple(getattr(Check, "SRC_TIES_PARTIAL", ())) + ("eval",)
+Check.SRC_TIES["eval"][4].extend(t for _f, _n, _w, _ts in EVAL_REST_TIES for t in _ts)
+_source_tie_before_eval_rest = Check.source_tie
+
+
+def _source_tie_with_eval_rest(self, which):
+    ok = _source_tie_before_eval_rest(self, which)
+    if which != "eval":
+        return ok
+    try:
+        text = open(os.path.join(ROOT, "coq", "generated", "GenEvalFn.v")).read()
+    except OSError:
+        text = ""
+    info = self.coverage.setdefault("source_translation", {})
+    rest = {}
+    for flag, fn, what, thms in EVAL_REST_TIES:
+        if re.search(r"Definition %s : bool := true\." % flag, text) is not None:
+            rest[fn] = {"active": True, "theorems": thms}
+            continue
+        m = re.search(r"\(\* NOT UNDERSTOOD %s: (.*?) \*\)" % re.escape(fn), text, re.S)
+        why = m.group(1) if m else "generated file missing"
+        rest[fn] = {"active": False, "reason": why}
+        names = ["DSP.SrcEval.%s" % t for t in thms]
+        self.obligations[:] = [o for o in self.obligations if o not in names]
+        self.discharged[:] = [o for o in self.discharged if o not in names]
+        if isinstance(info.get("eval", {}).get("theorems"), list):
+            info["eval"]["theorems"] = [t for t in info["eval"]["theorems"] if t not in thms]
+        print("NOTE: property=%s translation tie for %s is inactive on this tree (translator: %s); "
+              "the correspondence run is the only tie for it in this run" % (self.prop, what, why), flush=True)
+    info["eval_rest"] = {"file": "coq/generated/GenEvalFn.v", "functions": rest,
+                         "meaning": "fn parse as a whole and fn eval_instructions of utils/eval.rs: the hand model (EvalSerIx.eval_parse_ix / "
+                                    "EvalSer.eval_parse, SdkErr.eval_instructions) equals the mechanical translation of the current "
+                                    "source for all inputs (one flag per function)"}
+    return ok
+
+
+Check.source_tie = _source_tie_with_eval_rest
+
+
+# --- appended (builder B12): translation tie "condslice" for C06 — eval_condition_for_slice and eval_condition of
+# duckscript_sdk/src/utils/condition.rs (lib/gen/condslice_gen.py -> coq/generated/GenCondSliceFn.v, proofs
+# coq/theories/CondSliceGenTie.v, wrappers coq/props/SrcCondSlice.v).  Same scheme as PARSER_REST_TIES: the tie key's own flag
+# is eval_condition_for_slice's (gen_eval_slice_understood); eval_condition has its OWN flag in GenCondSliceFn.v: when the
+# translator does not understand it any more it gets a stub, its theorems (stated under `flag = true`) hold vacuously, and
+# source_tie("condslice") reports exactly that tie as inactive (NOTE + evidence) and does not count its theorems as discharged;
+# when eval_condition_for_slice is not understood but eval_condition is, eval_condition's theorems are still checked.
+CONDSLICE_BASE_THMS = ["Src_condslice_body", "Src_condslice_eval", "Src_condslice_ix", "Src_condslice_ix_checked",
+                       "Src_condslice_total", "Src_condslice_sem"]
+CONDSLICE_REST_TIES = [("gen_eval_condition_understood", "eval_condition", "duckscript_sdk/src/utils/condition.rs::eval_condition",
+                        ["Src_condslice_eval_condition", "Src_condslice_eval_condition_ix"])]
+Check.SRC_TIES.update({
+    "condslice": ("GenCondSliceFn.v", "gen_eval_slice_understood", "props/SrcCondSlice.vo", "DSP.SrcCondSlice",
+                  CONDSLICE_BASE_THMS + [t for _f, _n, _w, _ts in CONDSLICE_REST_TIES for t in _ts],
+                  "duckscript_sdk/src/utils/condition.rs::eval_condition_for_slice"),
+})
+
+
+def _condslice_register():
+    base = dict(getattr(Check, "SRC_TIES_BASE", {}))
+    base["condslice"] = list(CONDSLICE_BASE_THMS)
+    Check.SRC_TIES_BASE = base
+    if "condslice" not in getattr(Check, "SRC_TIES_PARTIAL", ()):
+        Check.SRC_TIES_PARTIAL = tuple(getattr(Check, "SRC_TIES_PARTIAL", ())) + ("condslice",)
+
+
+_condslice_register()
+_source_tie_before_condslice_rest = Check.source_tie
+
+
+def _source_tie_with_condslice_rest(self, which):
+    if which == "condslice":
+        _condslice_register()       # robust against a later block that re-assigns the two class attributes
+    ok = _source_tie_before_condslice_rest(self, which)
+    if which != "condslice":
+        return ok
+    try:
+        text = open(os.path.join(ROOT, "coq", "generated", "GenCondSliceFn.v")).read()
+    except OSError:
+        text = ""
+    info = self.coverage.setdefault("source_translation", {})
+    rest = {}
+    for flag, fn, what, thms in CONDSLICE_REST_TIES:
+        if re.search(r"Definition %s : bool := true\." % flag, text) is not None:
+            rest[fn] = {"active": True, "theorems": thms}
+            continue
+        m = re.search(r"\(\* NOT UNDERSTOOD %s: (.*?) \*\)" % re.escape(fn), text, re.S)
+        why = m.group(1) if m else "generated file missing"
+        rest[fn] = {"active": False, "reason": why}
+        names = ["DSP.SrcCondSlice.%s" % t for t in thms]
+        self.obligations[:] = [o for o in self.obligations if o not in names]
+        self.discharged[:] = [o for o in self.discharged if o not in names]
+        if isinstance(info.get("condslice", {}).get("theorems"), list):
+            info["condslice"]["theorems"] = [t for t in info["condslice"]["theorems"] if t not in thms]
+        print("NOTE: property=%s translation tie for %s is inactive on this tree (translator: %s); "
+              "the correspondence run is the only tie for it in this run" % (self.prop, what, why), flush=True)
+    info["condslice_rest"] = {"file": "coq/generated/GenCondSliceFn.v", "functions": rest,
+                              "meaning": "eval_condition (the dispatch in front of the slice evaluator): CondIx.eval_condition_with equals "
+                                         "the mechanical translation of the current source for all inputs (own flag)"}
+    return ok
+
+
+Check.source_tie = _source_tie_with_condslice_rest
+
+
+# --- appended (builder B18): translation tie "onerror" for C10 — the on_error command family of the SDK
+# (duckscript_sdk/src/sdk/std/on_error/*/mod.rs, get_value of on_error/mod.rs inlined, sdk/std/test/assert_error/mod.rs;
+# lib/gen/onerror_gen.py -> coq/generated/GenOnErrorFn.v, proofs coq/theories/OnErrorGenTie.v, wrappers coq/props/SrcOnError.v).
+# Same scheme as PARSER_REST_TIES: the tie key's own flag is the on_error handler's; every other command has its OWN flag in
+# GenOnErrorFn.v, a `run` the translator does not understand any more gets a stub, its theorems (stated under `flag = true`) hold
+# vacuously, and source_tie("onerror") then reports exactly that command's tie as inactive (NOTE + evidence) and does not count
+# its theorems as discharged.  Src_onerror_sdk_names (alias tables = the names SdkErr.is_sdk answers for) needs every flag.
+ONERROR_REST_TIES = [
+    ("gen_run_exit_on_error_understood", "exit_on_error", ["Src_onerror_exit_on_error", "Src_onerror_exit_on_error_dispatch"]),
+    ("gen_run_get_last_error_understood", "get_last_error", ["Src_onerror_get_last_error", "Src_onerror_get_last_error_dispatch"]),
+    ("gen_run_get_last_error_line_understood", "get_last_error_line",
+     ["Src_onerror_get_last_error_line", "Src_onerror_get_last_error_line_dispatch"]),
+    ("gen_run_get_last_error_source_understood", "get_last_error_source",
+     ["Src_onerror_get_last_error_source", "Src_onerror_get_last_error_source_dispatch"]),
+    ("gen_run_set_error_understood", "set_error", ["Src_onerror_set_error", "Src_onerror_set_error_dispatch"]),
+    ("gen_run_trigger_error_understood", "trigger_error", ["Src_onerror_trigger_error", "Src_onerror_trigger_error_dispatch"]),
+    ("gen_run_assert_error_understood", "assert_error", ["Src_onerror_assert_error", "Src_onerror_assert_error_dispatch"]),
+]
+ONERROR_ALL_TIES = ["Src_onerror_sdk_names"]
+Check.SRC_TIES.update({
+    "onerror": ("GenOnErrorFn.v", "gen_run_on_error_cmd_understood", "props/SrcOnError.vo", "DSP.SrcOnError",
+                ["Src_onerror_on_error", "Src_onerror_on_error_dispatch"],
+                "duckscript_sdk/src/sdk/std/on_error/on_error/mod.rs::run (with on_error::get_value)"),
+})
+Check.SRC_TIES_BASE = dict(getattr(Check, "SRC_TIES_BASE", {}))
+Check.SRC_TIES_BASE["onerror"] = list(Check.SRC_TIES["onerror"][4])
+Check.SRC_TIES_PARTIAL = tuple(getattr(Check, "SRC_TIES_PARTIAL", ())) + ("onerror",)
+Check.SRC_TIES["onerror"][4].extend(t for _f, _w, _ts in ONERROR_REST_TIES for t in _ts)
+Check.SRC_TIES["onerror"][4].extend(ONERROR_ALL_TIES)
+_source_tie_before_onerror_rest = Check.source_tie
+
+
+def _source_tie_with_onerror_rest(self, which):
+    ok = _source_tie_before_onerror_rest(self, which)
+    if which != "onerror":
+        return ok
+    try:
+        text = open(os.path.join(ROOT, "coq", "generated", "GenOnErrorFn.v")).read()
+    except OSError:
+        text = ""
+    info = self.coverage.setdefault("source_translation", {})
+    rest = {}
+
+    def drop(thms):
+        names = ["DSP.SrcOnError.%s" % t for t in thms]
+        self.obligations[:] = [o for o in self.obligations if o not in names]
+        self.discharged[:] = [o for o in self.discharged if o not in names]
+        if isinstance(info.get("onerror", {}).get("theorems"), list):
+            info["onerror"]["theorems"] = [t for t in info["onerror"]["theorems"] if t not in thms]
+    all_understood = re.search(r"Definition gen_run_on_error_cmd_understood : bool := true\.", text) is not None
+    for flag, fn, thms in ONERROR_REST_TIES:
+        what = "duckscript_sdk/src/sdk/std/%s/mod.rs::run" % ("test/assert_error" if fn == "assert_error" else "on_error/" + fn)
+        if re.search(r"Definition %s : bool := true\." % flag, text) is not None:
+            rest[fn] = {"active": True, "theorems": thms}
+            continue
+        all_understood = False
+        m = re.search(r"\(\* NOT UNDERSTOOD %s: (.*?) \*\)" % re.escape(fn), text, re.S)
+        why = m.group(1) if m else "generated file missing"
+        rest[fn] = {"active": False, "reason": why}
+        drop(thms)
+        print("NOTE: property=%s translation tie for %s is inactive on this tree (translator: %s); "
+              "the correspondence run is the only tie for it in this run" % (self.prop, what, why), flush=True)
+    if not all_understood:
+        drop(ONERROR_ALL_TIES)
+    rest["sdk_names"] = {"active": all_understood, "theorems": ONERROR_ALL_TIES}
+    info["onerror_rest"] = {"file": "coq/generated/GenOnErrorFn.v", "functions": rest,
+                            "meaning": "each listed command of the on_error family: the hand model (SdkErr.v: run_exit_on_error, "
+                                       "run_set_error, the query / trigger arms of sdk_cmd) equals the mechanical translation of the "
+                                       "current `run` for all inputs, and sdk_cmd under every alias the source registers is that "
+                                       "translation (one flag per command)"}
+    return ok
+
+
+Check.source_tie = _source_tie_with_onerror_rest
+
+
+# --- appended (builder B10): translation tie "runner" for C03 / C10 / C13 — the fetch/execute loop of duckscript/src/runner.rs
+# (lib/gen/runner_gen.py -> coq/generated/GenRunnerFn.v, proofs coq/theories/RunnerGenTie.v, wrappers coq/props/SrcRunner.v;
+# for C03 also the runner WITH argument binding: coq/theories/RunnerBindGenTie.v, coq/props/SrcRunnerBind.v).  Same scheme as
+# PARSER_REST_TIES: the tie key's own flag is the one of the loop of run_instructions (gen_runner_step_understood); every other
+# function has its OWN flag in GenRunnerFn.v, a function the translator does not understand any more gets a stub, its theorems
+# (stated under `flag = true`) hold vacuously, and source_tie("runner") then reports exactly that tie as inactive (NOTE +
+# evidence) and does not count its theorems as discharged.  A theorem that needs two functions lists both flags.
+RUNNER_REST_TIES = [
+    (("gen_update_output_understood",), "update_output", ["Src_runner_update_output"]),
+    (("gen_labels_from_understood",), "create_runtime", ["Src_runner_labels_from", "Src_runner_label_table"]),
+    (("gen_runner_step_understood", "gen_labels_from_understood"), "run (create_runtime + run_instructions)", ["Src_runner_run"]),
+    (("gen_run_on_error_understood",), "run_on_error_instruction", ["Src_runner_run_on_error"]),
+    (("gen_run_instruction_understood",), "run_instruction", ["Src_runner_run_instruction"]),
+]
+RUNNER_BIND_TIES = [     # DSP.SrcRunnerBind (RunnerBind.v), checked for the properties in RUNNER_BIND_PROPS
+    (("gen_bind_command_arguments_understood",), "bind_command_arguments", ["Src_runner_bind_command_arguments", "Src_runner_bind_vars"]),
+    (("gen_run_instruction_understood",), "run_instruction", ["Src_runner_bind_run_instruction"]),
+    (("gen_run_on_error_understood",), "run_on_error_instruction", ["Src_runner_bind_run_on_error"]),
+    (("gen_runner_step_understood",), "run_instructions", ["Src_runner_bind_step", "Src_runner_bind_loop"]),
+]
+RUNNER_BIND_PROPS = ("C03",)
+Check.SRC_TIES.update({
+    "runner": ("GenRunnerFn.v", "gen_runner_step_understood", "props/SrcRunner.vo", "DSP.SrcRunner",
+               ["Src_runner_step", "Src_runner_loop"],
+               "duckscript/src/runner.rs::run_instructions (one iteration of its loop, and the loop)"),
+})
+Check.SRC_TIES_BASE = dict(getattr(Check, "SRC_TIES_BASE", {}))
+Check.SRC_TIES_BASE["runner"] = list(Check.SRC_TIES["runner"][4])
+Check.SRC_TIES_PARTIAL = tuple(getattr(Check, "SRC_TIES_PARTIAL", ())) + ("runner",)
+Check.SRC_TIES["runner"][4].extend(t for _f, _w, _ts in RUNNER_REST_TIES for t in _ts)
+_source_tie_before_runner_rest = Check.source_tie
+
+
+def _source_tie_with_runner_rest(self, which):
+    ok = _source_tie_before_runner_rest(self, which)
+    if which != "runner":
+        return ok
+    try:
+        text = open(os.path.join(ROOT, "coq", "generated", "GenRunnerFn.v")).read()
+    except OSError:
+        text = ""
+    info = self.coverage.setdefault("source_translation", {})
+
+    def on(flag):
+        return re.search(r"Definition %s : bool := true\." % flag, text) is not None
+
+    def why_not(flags):
+        out = []
+        for m in re.finditer(r"\(\* NOT UNDERSTOOD: (\w+): (.*?) \*\)\nDefinition (\w+) : bool := false\.", text, re.S):
+            if m.group(3) in flags:
+                out.append("%s: %s" % (m.group(1), m.group(2)))
+        return "; ".join(out) or "generated file missing"
+    noted = set()
+
+    def note(what, why):
+        if what not in noted:
+            noted.add(what)
+            print("NOTE: property=%s translation tie for %s is inactive on this tree (translator: %s); "
+                  "the correspondence run is the only tie for it in this run" % (self.prop, what, why), flush=True)
+    if not on("gen_runner_step_understood"):
+        noted.add("duckscript/src/runner.rs::run_instructions")       # the base source_tie has printed that NOTE
+    rest = {}
+    for flags, fn, thms in RUNNER_REST_TIES:
+        if all(on(f) for f in flags):
+            rest[fn] = {"active": True, "theorems": thms}
+            continue
+        why = why_not(flags)
+        rest[fn] = {"active": False, "reason": why}
+        names = ["DSP.SrcRunner.%s" % t for t in thms]
+        self.obligations[:] = [o for o in self.obligations if o not in names]
+        self.discharged[:] = [o for o in self.discharged if o not in names]
+        if isinstance(info.get("runner", {}).get("theorems"), list):
+            info["runner"]["theorems"] = [t for t in info["runner"]["theorems"] if t not in thms]
+        note("duckscript/src/runner.rs::%s" % fn, why)
+    info["runner_rest"] = {"file": "coq/generated/GenRunnerFn.v", "functions": rest,
+                           "meaning": "each listed function of runner.rs: the hand model function of Runner.v equals the mechanical "
+                                      "translation of the current source for all inputs (one flag per function)"}
+    if self.prop in RUNNER_BIND_PROPS:
+        bind, active = {}, []
+        for flags, fn, thms in RUNNER_BIND_TIES:
+            if all(on(f) for f in flags):
+                bind[fn] = {"active": True, "theorems": thms}
+                active += thms
+            else:
+                why = why_not(flags)
+                bind[fn] = {"active": False, "reason": why}
+                note("duckscript/src/runner.rs::%s" % fn, why)
+        okb, _ = self.coq_build(["props/SrcRunnerBind.vo"])
+        if okb:
+            if active:
+                self.print_assumptions(["DSP.SrcRunnerBind"], ["DSP.SrcRunnerBind.%s" % t for t in active])
+        else:
+            ok = False
+            for t in active:
+                self.obligations.append("DSP.SrcRunnerBind.%s" % t)
+        info["runner_bind"] = {"file": "coq/generated/GenRunnerFn.v", "functions": bind,
+                               "meaning": "the runner WITH argument binding (RunnerBind.v): each listed function equals the mechanical "
+                                          "translation of the current source for all inputs and every binder"}
+    return ok
+
+
+Check.source_tie = _source_tie_with_runner_rest
+
+
+# --- appended (builder B17): translation tie "strings" for C16 / C17 — the `run` functions of the string / range / number
+# comparison / hex commands (duckscript_sdk/src/sdk/std/string/*/mod.rs, collections/range/mod.rs, math/{less_than,
+# greater_than,hex_encode,hex_decode}/mod.rs; lib/gen/strings_gen.py -> coq/generated/GenStringsFn.v, proofs
+# coq/theories/StringsGenTie.v, wrappers coq/props/SrcStrings.v).  Same scheme as PARSER_REST_TIES: the tie key's own flag
+# (gen_strings_understood) only says the generator ran; every command has its OWN flag in GenStringsFn.v, a command the
+# translator does not understand any more gets a stub, its theorem (stated under `flag = true`) holds vacuously, and
+# source_tie("strings") then reports exactly that command's tie as inactive (NOTE + evidence) and does not count its theorem
+# as discharged.
+STRINGS_CMD_TIES = [
+    ("gen_cmd_%s_understood" % _c, "duckscript_sdk/src/sdk/std/%s/mod.rs::run" % _p, ["Src_strings_%s" % _c])
+    for _c, _p in [
+        ("length", "string/length"), ("indexof", "string/indexof"), ("last_indexof", "string/last_indexof"),
+        ("substring", "string/substring"), ("contains", "string/contains"), ("starts_with", "string/starts_with"),
+        ("ends_with", "string/ends_with"), ("equals", "string/equals"), ("is_empty", "string/is_empty"),
+        ("replace", "string/replace"), ("split", "string/split"), ("trim", "string/trim"),
+        ("trim_start", "string/trim_start"), ("trim_end", "string/trim_end"), ("range", "collections/range"),
+        ("less_than", "math/less_than"), ("greater_than", "math/greater_than"), ("hex_encode", "math/hex_encode"),
+        ("hex_decode", "math/hex_decode")]
+]
+Check.SRC_TIES.update({
+    "strings": ("GenStringsFn.v", "gen_strings_understood", "props/SrcStrings.vo", "DSP.SrcStrings", [],
+                "duckscript_sdk/src/sdk/std: run of the string / range / less_than / greater_than / hex commands"),
+})
+Check.SRC_TIES_BASE = dict(getattr(Check, "SRC_TIES_BASE", {}))
+Check.SRC_TIES_BASE["strings"] = list(Check.SRC_TIES["strings"][4])
+Check.SRC_TIES_PARTIAL = tuple(getattr(Check, "SRC_TIES_PARTIAL", ())) + ("strings",)
+Check.SRC_TIES["strings"][4].extend(t for _f, _w, _ts in STRINGS_CMD_TIES for t in _ts)
+_source_tie_before_strings_cmds = Check.source_tie
+
+
+def _source_tie_with_strings_cmds(self, which):
+    ok = _source_tie_before_strings_cmds(self, which)
+    if which != "strings":
+        return ok
+    try:
+        text = open(os.path.join(ROOT, "coq", "generated", "GenStringsFn.v")).read()
+    except OSError:
+        text = ""
+    info = self.coverage.setdefault("source_translation", {})
+    cmds = {}
+    for flag, what, thms in STRINGS_CMD_TIES:
+        cmd = flag[len("gen_cmd_"):-len("_understood")]
+        if re.search(r"Definition %s : bool := true\." % flag, text) is not None:
+            cmds[cmd] = {"active": True, "theorems": thms}
+            continue
+        m = re.search(r"\(\* NOT UNDERSTOOD %s: (.*?) \*\)" % re.escape(cmd), text, re.S)
+        why = m.group(1) if m else "generated file missing"
+        cmds[cmd] = {"active": False, "reason": why}
+        names = ["DSP.SrcStrings.%s" % t for t in thms]
+        self.obligations[:] = [o for o in self.obligations if o not in names]
+        self.discharged[:] = [o for o in self.discharged if o not in names]
+        if isinstance(info.get("strings", {}).get("theorems"), list):
+            info["strings"]["theorems"] = [t for t in info["strings"]["theorems"] if t not in thms]
+        print("NOTE: property=%s translation tie for %s is inactive on this tree (translator: %s); "
+              "the correspondence run is the only tie for it in this run" % (self.prop, what, why), flush=True)
+    info["strings_cmds"] = {"file": "coq/generated/GenStringsFn.v", "commands": cmds,
+                            "meaning": "each listed command: the hand model cmd_<name> (Strings.v / Codec.v) equals the mechanical "
+                                       "translation of the current `run` for all argument vectors, and the translation (every "
+                                       "arguments[i] / unwrap / checked + - an explicit RPanic arm) never panics (one flag per command)"}
+    return ok
+
+
+Check.source_tie = _source_tie_with_strings_cmds
